@@ -1,7 +1,7 @@
 package dsindex
 
 // Bounded stand-in for property C24 (labelled bounded; never counted as proved):
-// all operation sequences up to length 3 (thorough: 4) over keys/values whose
+// all operation sequences up to length 3 (thorough: every 4th sequence of length 4) over keys/values whose
 // base64url encodings are string prefixes of one another ("a","ab","abc","abcd",
 // "/" ...) are run against the index and against a map[string]set model; after
 // every step Search/HasAny/HasValue of every key must agree with the model.
@@ -100,9 +100,14 @@ func TestVerifBoundedC24Multimap(t *testing.T) {
 		}
 		return true
 	}
+	leaf := 0
 	var rec func(seq []op) bool
 	rec = func(seq []op) bool {
 		if len(seq) == maxLen {
+			leaf++
+			if maxLen == 4 && leaf%4 != 0 {
+				return true // thorough: every 4th of the 36^4 sequences of length 4 (all of length 3 run in the quick tier)
+			}
 			return check(seq)
 		}
 		for _, o := range alphabet {
